@@ -48,6 +48,10 @@ CHECKS = {
    technique="property-based testing (rapid) of hostile inputs through the synchronous pipeline with a sentinel-record metamorphic oracle; native coverage-guided fuzzing (go test -fuzz) in the thorough tier; real-listener scenarios in the end-to-end engine",
    text="Layer A: hostile byte strings (structured header mutations, NIL/short timestamps, invalid UTF-8, tokens and records padded to every internal boundary up to 4x MaxRecordBytes) are presented as records to the real parse->extract->metric keys->transform->serialize->pack path under the sample and generated configurations, with panics and memory faults recovered; every input must be counted exactly once and two well-formed sentinel records processed right after it must give byte-identical output to a fresh pipeline. The thorough tier adds coverage-guided fuzzing seeded with the repository's test inputs and the hostile constants that crashed the pinned tree.",
    note="Limits are defs variables scaled to 300/2000/70000 bytes with MaxRecord = MaxMessage+256 (about 1% of quick and 10% of thorough cases use the production 1 MiB). Inputs longer than the listener's line buffer (4x MaxRecordBytes) are cut as the listener would. Wedging (hangs) and the TCP path are covered by the listener scenarios of the end-to-end engine."),
+ "C02": dict(engine="c02client", category="exploration", design="§3 C02",
+   technique="model-based property-based testing (rapid) with injected faults: the real ClientWorker against a scripted connection, history checked by invariants",
+   text="The real baseoutput.ClientWorker (sender and acknowledger goroutines, leftovers, reconnect policy) runs against a scripted ClosableClientConnection whose successive connect/send/ping/ACK-read operations succeed, fail, block until closed or deadline, return an unknown ID or answer late, in explicit-ID or in-order style; chunks are fed with gaps; a stop request is issued when the k-th I/O operation begins or after a drain wait; SIGUSR1 and max-session-age reconnects are injected. The recorded history must satisfy: delivered only after the upstream acknowledged that chunk on a connection where its send succeeded; every chunk taken from the queue resolved exactly once and OnFinished last; per connection increasing IDs without skipping an older unresolved chunk; termination after the stop request.",
+   note="Timeouts are defs variables scaled to 2-80 ms. Interleavings of sender and acknowledger are varied by scripted per-operation delays and by the Go scheduler (8-16 processes, plus -race shards in thorough), not enumerated. Liveness (retransmission until acknowledged) is observed within a 400 ms drain budget and reported as a class, never as a violation; the safety form (nothing lost at stop) is what is decided."),
 }
 
 NOT_YET = {}
